@@ -313,8 +313,7 @@ class BatchWP(EigWP):
                         raise Unsupported(f'{self.name}: sample row outside the per-sample loop')
                     self.oblige(f'sample s reads / writes row s of {key}', f'(= {idx.t} {self.loop_index})', n)
                     self.loop_lens.add('samples')
-                    self.check_fresh(o, f'row of {key}')
-                    r = AV(o.c, o.n, o.deps)
+                    r = AV(o.c, o.n, {key: o.stamp})
                     if o.writable:
                         r.view = (key, None)
                     return r
